@@ -665,14 +665,20 @@ func serverTransactBody(p *Program) (body *ssa.Function, via *ssa.Call) {
 		return fn, nil
 	}
 	region := p.PrivateRegion(fn)
-	for _, b := range fn.Blocks {
-		for _, ins := range b.Instrs {
-			c, ok := ins.(*ssa.Call)
-			if !ok {
-				continue
-			}
-			if g := c.Call.StaticCallee(); g != nil && g != fn && region[g] && g.Parent() == nil && callsTransact(g) {
-				return g, c
+	// the call may sit in Transact itself or in a closure it hands to a locking helper
+	for _, h := range sortedFuncs(region) {
+		if h != fn && h.Parent() == nil {
+			continue
+		}
+		for _, b := range h.Blocks {
+			for _, ins := range b.Instrs {
+				c, ok := ins.(*ssa.Call)
+				if !ok {
+					continue
+				}
+				if g := c.Call.StaticCallee(); g != nil && g != fn && region[g] && g.Parent() == nil && callsTransact(g) {
+					return g, c
+				}
 			}
 		}
 	}
